@@ -34,6 +34,9 @@ def main():
             demo = os.path.join(src, pid, 'demo%d.py' % n)
             if not os.path.exists(patch):
                 continue
+            only = os.environ.get('ONLY')
+            if only and '%s_%d' % (pid, n + offset) not in only.split(','):
+                continue
             out = os.path.join(HERE, 'seeded', '%s_%d' % (pid, n + offset))
             meta = {'property': pid, 'source': 'independent sub-agent given only the property text and a scratch worktree',
                     'base_commit': sh('git -C /repo rev-parse --short HEAD')[1].strip()}
